@@ -140,6 +140,17 @@ class Gen:
             start[sp], start[sq] = st, None
             names = names + [sp, sq]
             self.names = names
+        tight = [n for n in self.terminal if n not in loose]
+        if tight and r.random() < 0.4:
+            # unitary-like pair:  Td = T.adj with T = 1 + ...;  "Td @ T" is Hermitian, has `one` in both factors and is
+            # only ever requested directly (identity + value cannot enter a sum)
+            t = r.choice(sorted(tight))
+            td = f"S{len(names)}"
+            lines += [f'    with "{td}":', "        start = 1", f'        "{t}".adj']
+            start[td] = 1
+            names = names + [td]
+            self.names = names
+            self.products[f"{td} @ {t}"] = r.random() < 0.8
         for p, herm in sorted(self.products.items()):
             lines.append(f'    with "{p}":')
             lines.append("        hermitian" if herm else "        pass")
@@ -235,7 +246,7 @@ class Prop:
     probes = ["family_G", "family_T", "family_S", "compared", "value_nonzero", "internal_after_output", "product_requested",
               "hermitian_product", "marker_hermitian", "marker_antihermitian", "clause_diagonal", "clause_offdiagonal",
               "clause_lower", "fn_call", "fn_series_arg", "division", "ifexp", "start_one", "start_input", "start_none",
-              "two_block_optimized", "commuting_false", "offdiag_present", "program_rejected", "prelude_program", "hermitian_product_3", "linear_operator_mode", "family_F", "flags_clause_checked", "slice_request", "eviction_observed",
+              "two_block_optimized", "commuting_false", "offdiag_present", "program_rejected", "prelude_program", "hermitian_product_3", "linear_operator_mode", "family_F", "flags_clause_checked", "slice_request", "domain_float", "eviction_observed",
               "recompute_after_eviction"]
     components_real = ["pymablock.algorithm_parsing (compiler, series_computation), pymablock.series, pymablock.algorithms, "
                        "block_diagonalize wiring of scope (family S)"]
@@ -299,6 +310,7 @@ class Prop:
         outs = [ln for ln in src.splitlines() if ln.strip().startswith("return")][0]
         outputs = [s.strip().strip('"') for s in outs.replace("return", "").split(",") if s.strip()]
         case = {"family": "G", "src": src, "nb": nb, "ninf": ninf, "cap": cap,
+                "domain": "float" if r.random() < 0.25 else "tracer", "sizes": [r.choice([1, 2]) for _ in range(3)],
                 "inputs": {n: {"pz": r.choice([0.0, 0.2, 0.5]), "zero0": r.random() < 0.3, "iseed": r.randrange(1 << 30)} for n in inputs},
                 "flag": r.random() < 0.5, "flags": [r.random() < 0.5 for _ in range(nb)]}
         case["ops"] = self._schedule(r, inputs + names + products, outputs, nb, ninf, cap, tier)
@@ -464,19 +476,28 @@ class Prop:
                 input_names = list(case["inputs"])
                 flag = case["flag"]
 
+                floats = case.get("domain") == "float"
+                if floats:
+                    bump("domain_float")
+
                 def f(x, index):
                     v = x[index] if isinstance(x, (BlockSeries, refdsl.Handle)) else x
                     if v is zero:
                         return zero
+                    if floats:  # mutable matrix values: a non-linear elementwise map, never in place
+                        return zero if v is one else v / (1.0 + np.abs(v)) * (0.7 + 0.2j)
                     if v is one:
                         return T.gen("f(one)")
                     return T.fun("f", v, int(index[0]), int(index[1]))
 
                 def g(x, index):
                     tr = (index[1], index[0], *index[2:])
-                    v = x[tr] if isinstance(x, (BlockSeries, refdsl.Handle)) else x
+                    series_arg = isinstance(x, (BlockSeries, refdsl.Handle))
+                    v = x[tr] if series_arg else x
                     if v is zero or v is one:
                         return zero
+                    if floats:
+                        return (v.conj().T if series_arg else v) * 0.5
                     return T.fun("g", v)
 
                 scope = {"f": f, "g": g, "flag": flag, "flags": list(case["flags"])}
@@ -501,7 +522,8 @@ class Prop:
             tables = {}
             for name in input_names:
                 tables[name] = self._input_table(name, specs[name], nb, ninf, hermitian=(fam == "T" and case["algo"] == "main"),
-                                                 block_diag0=(fam == "T"), zero=zero)
+                                                 block_diag0=(fam == "T"), zero=zero,
+                                                 sizes=case.get("sizes") if case.get("domain") == "float" else None)
             compiled_inputs = {}
             for name in input_names:
                 tab = tables[name]
@@ -742,9 +764,18 @@ class Prop:
             bump("hermitian_product_3")
 
     @staticmethod
-    def _input_table(name, spec, nb, ninf, hermitian, block_diag0, zero):
+    def _input_table(name, spec, nb, ninf, hermitian, block_diag0, zero, sizes=None):
         rg = np.random.default_rng(spec["iseed"])
         tab = {}
+        if sizes is not None:  # complex matrices (mutable values), generated programs only
+            for n in itertools.product(range(MAXO[ninf] + 1), repeat=ninf):
+                for i in range(nb):
+                    for j in range(nb):
+                        absent = rg.random() < spec["pz"]
+                        shape = (sizes[i % len(sizes)], sizes[j % len(sizes)])
+                        val = rg.normal(size=shape) + 1j * rg.normal(size=shape)
+                        tab[(i, j, *n)] = zero if (absent or (sum(n) == 0 and spec["zero0"])) else val
+            return tab
         for n in itertools.product(range(MAXO[ninf] + 1), repeat=ninf):
             for i in range(nb):
                 for j in range(nb):
